@@ -312,6 +312,12 @@ def consumers_rule(ctx):
         # `set_delim` / computed for another delimiter cuts the last rows: fewer rows than records)
         from . import c14
         c14.size_rule(dep(ctx, "C06", "C14"), fm)
+    # "row count of any subcommand": the CLI hands `-t 0` (auto) to the library only after translating it — the mapped
+    # writer spawns `0..threads` workers, and no worker means no record is ever taken from the reader
+    from . import c15
+    fcli_ = ctx.view(c15.CLI, c15.UNIT)
+    if fcli_ is not None:
+        c15.flow_rule(dep(ctx, "C06", "C15"), fcli_)
 
 
 
